@@ -147,6 +147,10 @@ ObsPre(pre, a, line, tr) ==
                     THEN [rank |-> scn.allocs[x].rank, adj |-> scn.allocs[x].adj,
                           reserved |-> scn.allocs[x].reserved, maxutil |-> scn.allocs[x].maxutil,
                           label |-> scn.allocs[x].label]
+                    ELSE IF "decl_allocs" \in DOMAIN line /\ x \in DOMAIN line.decl_allocs
+                    THEN LET d == line.decl_allocs[x] IN
+                         [pre.allocs[x] EXCEPT !.rank = d.rank, !.adj = d.adj, !.reserved = d.reserved,
+                                               !.maxutil = d.maxutil, !.label = d.label]
                     ELSE pre.allocs[x]]
       prioO(n) == IF n \in DOMAIN a.prio THEN a.prio[n]
                   ELSE IF "oprio" \in DOMAIN line /\ n \in DOMAIN line.oprio THEN line.oprio[n]
@@ -238,7 +242,8 @@ CycleFail(rawpre, line, rawpost) ==
         \cup F("C06.prio", \A k \in DOMAIN line.queues : C06prio(op, line.queues[k]))
         \cup F("C06.zeroLast", \A k \in DOMAIN line.queues : C06zeroLast(op, line.queues[k]))
         \cup F("C06.boost", \A k \in DOMAIN line.queues : C06boost(op, line.queues[k]))
-        \cup F("C06.cap", \A k \in DOMAIN line.queues : C06cap(op, line.queues[k], post)))
+        \cup F("C06.cap", \A k \in DOMAIN line.queues : C06cap(op, line.queues[k], post))
+        \cup F("C06.capOnly", \A k \in DOMAIN line.queues : C06capOnly(op, line.queues[k])))
   \cup F("drift.cycle", CycleExplained(rawpre, line.queues, rawpost))
   \cup F("drift.declared", pre = rawpre /\ post = rawpost)
   \cup F("C02.prune", C02prune(post))
